@@ -12,6 +12,8 @@ use crate::check::context::function::python::{
     ADD, DIV, EQ, FDIV, GE, GEQ, LE, LEQ, MOD, MUL, NEQ, POW, SUB,
 };
 use crate::check::context::function::SQRT;
+
+const NEG: &str = "__neg__";
 use crate::check::context::{Context, LookupClass};
 use crate::check::name::string_name::StringName;
 use crate::check::name::true_name::TrueName;
@@ -62,7 +64,25 @@ pub fn gen_op(
         Node::Neq { left, right } => gen_magic(NEQ, ast, left, right, env, ctx, constr),
         Node::Eq { left, right } => gen_magic(EQ, ast, left, right, env, ctx, constr),
 
-        Node::AddU { expr } | Node::SubU { expr } => generate(expr, env, ctx, constr),
+        Node::AddU { expr } | Node::SubU { expr } => {
+            // A sign has the type of the negation of its operand, which must define it
+            let access = Expected::new(
+                expr.pos,
+                &Access {
+                    entity: Box::new(Expected::from(expr)),
+                    name: Box::from(Expected::new(
+                        expr.pos,
+                        &Function {
+                            name: StringName::from(NEG),
+                            args: vec![Expected::from(expr)],
+                        },
+                    )),
+                },
+            );
+
+            constr.add("unary operation", &Expected::from(ast), &access, env);
+            generate(expr, env, ctx, constr)
+        }
         Node::Sqrt { expr } => {
             let ty = Type {
                 name: Name::from(FLOAT),
@@ -93,48 +113,22 @@ pub fn gen_op(
         }
 
         Node::BOneCmpl { expr } => {
-            constr.add(
-                "binary compliment",
-                &Expected::from(expr),
-                &Expected::any(expr.pos),
-                env,
-            );
+            let int = Expected::new(ast.pos, &int_ty());
+            constr.add("binary compliment", &Expected::from(ast), &int, env);
+            constr.add("binary compliment", &Expected::from(expr), &int, env);
             generate(expr, env, ctx, constr)?;
             Ok(env.clone())
         }
-        Node::BAnd { left, right } | Node::BOr { left, right } | Node::BXOr { left, right } => {
-            constr.add(
-                "binary logical op",
-                &Expected::from(left),
-                &Expected::any(left.pos),
-                env,
-            );
-            constr.add(
-                "binary logical op",
-                &Expected::from(right),
-                &Expected::any(right.pos),
-                env,
-            );
-
-            bin_op(left, right, env, ctx, constr)
-        }
-        Node::BLShift { left, right } | Node::BRShift { left, right } => {
-            constr.add(
-                "binary shift",
-                &Expected::from(left),
-                &Expected::any(right.pos),
-                env,
-            );
-
-            let name = Name::from(INT);
-            let l_exp = Expected::from(right);
-            constr.add(
-                "binary shift",
-                &l_exp,
-                &Expected::new(right.pos, &Type { name }),
-                env,
-            );
-
+        Node::BAnd { left, right }
+        | Node::BOr { left, right }
+        | Node::BXOr { left, right }
+        | Node::BLShift { left, right }
+        | Node::BRShift { left, right } => {
+            // Bitwise operations and shifts are operations on integers
+            let int = Expected::new(ast.pos, &int_ty());
+            constr.add("binary operation", &Expected::from(ast), &int, env);
+            constr.add("binary operation", &Expected::from(left), &int, env);
+            constr.add("binary operation", &Expected::from(right), &int, env);
             bin_op(left, right, env, ctx, constr)
         }
 
@@ -193,6 +187,12 @@ pub fn gen_op(
             ast.pos,
             "Was expecting operation or primitive",
         )]),
+    }
+}
+
+fn int_ty() -> crate::check::constrain::constraint::expected::Expect {
+    Type {
+        name: Name::from(INT),
     }
 }
 
